@@ -162,7 +162,15 @@ pub fn cases(args: &[String]) {
                         format!("- - {}", run_ctx(&data, &ops))
                     } else {
                         let mut si = SliceInput::new(&data);
-                        let a = run_reads(&mut si, &ops);
+                        let mut a = run_reads(&mut si, &ops);
+                        if data.is_empty() {
+                            // the public constant SliceInput::EMPTY is the slice source over no bytes
+                            let mut e = SliceInput::EMPTY;
+                            let ae = run_reads(&mut e, &ops);
+                            if ae != a {
+                                a = format!("EMPTY-CONSTANT-DIFFERS:{ae}");
+                            }
+                        }
                         let mut oi = OwnedInput::new(data.clone());
                         let b = run_reads(&mut oi, &ops);
                         format!("{a} {b} {}", run_ctx(&data, &ops))
